@@ -261,14 +261,16 @@ impl WriteCircuitBreaker {
     }
 
     fn transition_to_closed(&self) {
+        // Reset the failure count before the circuit is visible as Closed: failures
+        // counted before it opened must not count towards re-opening it
+        #[cfg(sierradb_verif)]
+        verif::pause("tcl.fc");
+        self.failure_count.store(0, Ordering::Release);
         #[cfg(sierradb_verif)]
         verif::pause("tcl.state");
         self.state
             .store(CircuitState::Closed as u8, Ordering::Release);
-        // Reset all counters
-        #[cfg(sierradb_verif)]
-        verif::pause("tcl.fc");
-        self.failure_count.store(0, Ordering::Release);
+        // Reset the half-open counters
         #[cfg(sierradb_verif)]
         verif::pause("tcl.hocc");
         self.half_open_call_count.store(0, Ordering::Release);
